@@ -305,6 +305,12 @@ func (r *receiver) run(ctx context.Context) error {
 					return errors.Errorf("invalid file request %d", p.ID)
 				}
 				if len(p.Data) == 0 {
+					// the answer for this id is complete: content that still arrives for
+					// it is not requested content (the writer unregisters the id as well,
+					// but only once it has been scheduled)
+					r.muPipes.Lock()
+					delete(r.pipes, p.ID)
+					r.muPipes.Unlock()
 					if err := pw.Close(); err != nil {
 						return err
 					}
